@@ -17,7 +17,7 @@
 // string(int), recover of runtime errors, Println formats, use of a missing
 // map value, ranging over a map, float-to-integer conversions (out-of-range
 // results are implementation-defined in Go), division by a variable (except
-// the deliberately injected division by a zero variable), shadowing.
+// the deliberately injected division by a zero variable).
 //
 // Runtime aborts are injected on purpose at a chosen rate: integer division
 // by a zero variable, slice index out of range, unrecovered panic. A runtime
@@ -181,7 +181,11 @@ func (g *gen) literal(t string) string {
 		}
 		return fmt.Sprint(v)
 	case isFloat(t):
-		return rapid.SampledFrom([]string{"0.5", "1.5", "2.25", "3.0", "10.0", "0.125", "7.75", "100.5"}).Draw(g.t, "flit")
+		f := rapid.SampledFrom([]string{"0.5", "1.5", "2.25", "3.0", "10.0", "0.125", "7.75", "100.5"}).Draw(g.t, "flit")
+		if g.chance("fneg", 25) {
+			return "-" + f
+		}
+		return f
 	case t == "string":
 		return rapid.SampledFrom([]string{`"a"`, `"bc"`, `""`, `"héllo"`, `"x y"`, `"Z9"`, `"tab\there"`, `"q\"uote"`}).Draw(g.t, "slit")
 	case t == "bool":
@@ -571,8 +575,50 @@ func (g *gen) stmt() {
 	case 14:
 		g.multiReturnStmt()
 	case 15:
-		g.deferStmt()
+		if g.chance("shadow", 40) {
+			g.shadowStmt()
+		} else {
+			g.deferStmt()
+		}
 	}
+}
+
+// shadowStmt redeclares a numeric variable of an enclosing scope in the
+// current block from its own outer value ("x := x + 1"): the right-hand x is
+// the outer one, the new x lives until the block ends and the outer x is
+// untouched. Only inside a nested block (the function body's own variables
+// cannot be redeclared with := alone).
+func (g *gen) shadowStmt() {
+	if len(g.scopes) < 2 || g.depth < 2 {
+		g.printExprStmt()
+		return
+	}
+	inner := map[string]bool{}
+	for _, v := range g.scopes[len(g.scopes)-1] {
+		inner[v.name] = true
+	}
+	var cands []variable
+	for _, sc := range g.scopes[:len(g.scopes)-1] {
+		for _, v := range sc {
+			if isNum(v.typ) && !inner[v.name] {
+				cands = append(cands, v)
+			}
+		}
+	}
+	if len(cands) == 0 {
+		g.printExprStmt()
+		return
+	}
+	v := cands[g.pick("shv", len(cands))]
+	op := rapid.SampledFrom([]string{"+", "-", "*"}).Draw(g.t, "shop")
+	g.line("%s := %s %s %s", v.name, v.name, op, g.literal(v.typ))
+	g.f("shadowing-redeclaration")
+	if g.inLoop > 0 {
+		g.f("shadowing-redeclaration-in-loop")
+	}
+	nv := variable{name: v.name, typ: v.typ}
+	g.declare(nv)
+	g.printVar(nv)
 }
 
 func (g *gen) scalarType() string {
@@ -1000,7 +1046,41 @@ func (g *gen) structStmt() {
 		return
 	}
 	v := svs[g.pick("sv", len(svs))]
-	switch g.pick("structop", 3) {
+	nops := 3
+	if v.typ == st.name {
+		nops = 7
+	}
+	switch g.pick("structop", nops) {
+	case 3:
+		// assignment copies a struct value
+		q := g.local("q")
+		g.line("%s := %s", q, v.name)
+		g.line("%s.F0 = %s.F0 + %s", q, q, g.literal("int"))
+		g.f("struct-copy-by-assignment")
+		g.printVar(variable{name: q, typ: st.name})
+	case 4:
+		// a composite literal holds a copy of the struct
+		q := g.local("s")
+		g.line("%s := []%s{%s}", q, st.name, v.name)
+		g.line("%s[0].F0 = %s", q, g.literal("int"))
+		if g.chance("appendstruct", 50) {
+			g.line("%s = append(%s, %s)", q, q, v.name)
+			g.line("%s[1].F0 = %s", q, g.literal("int"))
+			g.line(`fmt.Printf("%s[1].F0=%%d\n", %s[1].F0)`, q, q)
+		}
+		g.line(`fmt.Printf("%s[0].F0=%%d len=%%d\n", %s[0].F0, len(%s))`, q, q, q)
+		g.f("struct-copy-into-slice")
+	case 5:
+		q := g.local("m")
+		g.line("%s := map[string]%s{\"k\": %s}", q, st.name, v.name)
+		g.line("%s.F0 = %s", v.name, g.literal("int"))
+		g.line(`fmt.Printf("%s[k].F0=%%d\n", %s["k"].F0)`, q, q)
+		g.f("struct-copy-into-map")
+	case 6:
+		// passed by value: the callee changes its own copy
+		g.n++
+		g.line(`fmt.Printf("m%d=%%d\n", %s(%s))`, g.n, st.name+"_grow", v.name)
+		g.f("struct-passed-by-value")
 	case 0:
 		f := st.fields[g.pick("fld", len(st.fields))]
 		g.line("%s.%s = %s", v.name, f.name, g.expr(f.typ, 2).s)
@@ -1178,6 +1258,8 @@ func (g *gen) genStruct() {
 	b.WriteString("\treturn t\n}\n\n")
 	// pointer receiver: mutates
 	fmt.Fprintf(&b, "func (r *%s) Bump(d int) {\n\tr.F0 = r.F0 + d\n}\n\n", st.name)
+	// by-value parameter: changes its own copy only
+	fmt.Fprintf(&b, "func %s_grow(r %s) int {\n\tr.F0 = r.F0 + 100\n\treturn r.F0\n}\n\n", st.name, st.name)
 	g.pendingDecls = append(g.pendingDecls, b.String())
 	g.strs = append(g.strs, st)
 	g.f("struct-type")
@@ -1249,6 +1331,15 @@ func (g *gen) genFunc() {
 		g.line("}()")
 		g.noDefer = true
 		g.block(1 + g.pick("fb1", 2))
+		if g.chance("closure-sets-result", 40) {
+			cl := g.local("set")
+			g.line("%s := func() {", cl)
+			g.line("\tres = %s", g.expr(f.results[0], 1).s)
+			g.line("}")
+			g.line("%s()", cl)
+			g.line(`fmt.Printf("res=%s\n", res)`, verb(f.results[0], g))
+			g.f("closure-assigns-named-result")
+		}
 		g.line("if %s {", g.cond())
 		g.line("\t"+`panic("%s boom")`, f.name)
 		g.line("}")
